@@ -283,7 +283,10 @@ func (g *gen) mutate(s *gSchema, o mutateOpts, c *ctx) *gSchema {
 	for e := 0; e < o.edits; e++ {
 		if len(n.Tables) == 0 || g.rng.Intn(12) == 0 {
 			if len(n.Tables) < o.maxTables+1 {
-				n.Tables = append(n.Tables, g.newTable(n, o.maxCols))
+				// a fresh name on both sides: re-creating a dropped table would make an unrelated column order
+				both := &gSchema{Tables: append(append([]*gTable{}, n.Tables...), s.Tables...)}
+				nt := g.newTable(both, o.maxCols)
+				n.Tables = append(n.Tables, nt)
 				c.count("edit_add_table")
 			}
 			continue
